@@ -63,7 +63,8 @@ func TestVerif_C21_Child(t *testing.T) {
 		d.Argv = append(d.Argv, vf21Cps(a))
 	}
 	for _, e := range os.Environ() {
-		if strings.HasPrefix(e, "MTX_") || strings.HasPrefix(e, "G1") {
+		le := strings.ToLower(e)
+		if strings.HasPrefix(le, "mtx_") || strings.HasPrefix(le, "g1=") || strings.HasPrefix(le, "vf21_amb") {
 			d.Env = append(d.Env, vf21Cps(e))
 		}
 	}
@@ -90,6 +91,13 @@ type vf21Case struct {
 	} `json:"env"`
 	Status  int  `json:"status"`
 	Restart bool `json:"restart"`
+	// ambient environment of the server process (= this test process) while the command is started
+	Amb     string `json:"amb"`
+	Ambient []struct {
+		Name string `json:"name"`
+		V    []int  `json:"v"`
+	} `json:"ambient"`
+	AmbNames []string `json:"ambnames"` // every name any ambient sets, and the passed names: removed first
 }
 
 var vf21Num = regexp.MustCompile(`[0-9]+`)
@@ -146,10 +154,14 @@ func vf21Run(t testing.TB, exe, dir string, c *vf21Case) map[string]any {
 		return map[string]any{"id": c.ID, "timeout": true}
 	}
 
-	res := map[string]any{"id": c.ID, "ran": false, "argv": [][]int{}, "envseen": [][][]int{}, "onexit": calls}
+	res := map[string]any{"id": c.ID, "ran": false, "argv": [][]int{}, "envseen": [][][]int{}, "ambseen": [][][]int{}, "onexit": calls}
 	seen := make([][][]int, len(c.Env))
 	for i := range seen {
 		seen[i] = [][]int{}
+	}
+	ambseen := make([][][]int, len(c.Ambient))
+	for i := range ambseen {
+		ambseen[i] = [][]int{}
 	}
 	if b, err := os.ReadFile(dump); err == nil {
 		var d vf21Dump
@@ -166,10 +178,16 @@ func vf21Run(t testing.TB, exe, dir string, c *vf21Case) map[string]any {
 					seen[i] = append(seen[i], vf21Cps(s[len(w.Name)+1:]))
 				}
 			}
+			for i, w := range c.Ambient {
+				if strings.HasPrefix(s, w.Name+"=") {
+					ambseen[i] = append(ambseen[i], vf21Cps(s[len(w.Name)+1:]))
+				}
+			}
 		}
 		os.Remove(dump)
 	}
 	res["envseen"] = seen
+	res["ambseen"] = ambseen
 	return res
 }
 
@@ -187,22 +205,48 @@ func TestVerif_C21_Replay(t *testing.T) {
 	}
 	dir := t.TempDir()
 	workers := verifrt.Param("WORKERS", 8)
-	jobs := make(chan *vf21Case, 64)
-	var wg sync.WaitGroup
-	for w := 0; w < workers; w++ {
-		wg.Add(1)
-		go func() {
-			defer wg.Done()
-			for c := range jobs {
-				out.Emit(vf21Run(t, exe, dir, c))
-			}
-		}()
-	}
+
+	// the ambient environment is the environment of THIS process (Cmd.run reads os.Environ, expandEnv
+	// os.Getenv), so the cases are executed ambient by ambient: install one, run its cases in parallel,
+	// wait for all of them, install the next
+	var order []string
+	byAmb := map[string][]*vf21Case{}
 	verifrt.ForEachCase(t, func(raw []byte) {
 		c := &vf21Case{}
 		verifrt.Decode(t, raw, c)
-		jobs <- c
+		if _, ok := byAmb[c.Amb]; !ok {
+			order = append(order, c.Amb)
+		}
+		byAmb[c.Amb] = append(byAmb[c.Amb], c)
 	})
-	close(jobs)
-	wg.Wait()
+	for _, amb := range order {
+		batch := byAmb[amb]
+		for _, n := range batch[0].AmbNames {
+			os.Unsetenv(n)
+		}
+		for _, a := range batch[0].Ambient {
+			if err = os.Setenv(a.Name, vf21Str(a.V)); err != nil {
+				t.Fatal(err)
+			}
+		}
+		jobs := make(chan *vf21Case, 64)
+		var wg sync.WaitGroup
+		for w := 0; w < workers; w++ {
+			wg.Add(1)
+			go func() {
+				defer wg.Done()
+				for c := range jobs {
+					out.Emit(vf21Run(t, exe, dir, c))
+				}
+			}()
+		}
+		for _, c := range batch {
+			jobs <- c
+		}
+		close(jobs)
+		wg.Wait()
+		for _, n := range batch[0].AmbNames {
+			os.Unsetenv(n)
+		}
+	}
 }
